@@ -107,6 +107,21 @@ MonStep(m, e) ==
         IF e.ok /\ SameMsg(e.tree, m.built) THEN Pass(m)
         ELSE Fail(m, "move_legal target differs from the original source" \o (IF e.ok THEN DiffTag(e.tree, m.built) ELSE ""),
                   "move_target_differs:" \o (IF e.ok THEN DiffSig(m, e.tree, m.built) ELSE "exception"))
+    \* the same three with a message the factory decoded as the source (judged against the message that was asked for: a
+    \* decoded message carries the derived fields with their wire values)
+    ELSE IF e.e = "Decode" /\ m.prop = "C11" /\ ~e.ok THEN Pass([m EXCEPT !.dead = TRUE])      \* nothing to clone: C01's subject
+    ELSE IF e.e = "CloneDec" /\ m.prop = "C11" THEN
+        IF e.ok /\ m.haveEnc /\ SameBytes(e, m.enc) THEN Pass(m)
+        ELSE Fail(m, "clone of the decoded message does not encode to the bytes of the original",
+                  "clone_of_decoded_differs:" \o (IF ~e.ok THEN "exception" ELSE DiffSig(m, e.tree, m.want)))
+    ELSE IF e.e = "CopyLegalDec" /\ m.prop = "C11" THEN
+        IF e.ok /\ SameMsg(e.tree, m.want) THEN Pass(m)
+        ELSE Fail(m, "copy_legal from the decoded message: target differs from the source",
+                  "copy_from_decoded_differs:" \o (IF e.ok THEN DiffSig(m, e.tree, m.want) ELSE "exception"))
+    ELSE IF e.e = "MoveLegalDec" /\ m.prop = "C11" THEN
+        IF e.ok /\ SameMsg(e.tree, m.want) THEN Pass(m)
+        ELSE Fail(m, "move_legal from the decoded message: target differs from the source",
+                  "move_from_decoded_differs:" \o (IF e.ok THEN DiffSig(m, e.tree, m.want) ELSE "exception"))
     ELSE Pass(m)
 
 Init == l = 1 /\ ms = MsInit /\ fails = <<>> /\ nexec = 0
